@@ -185,6 +185,7 @@ pub fn check(hdr: &str, lines: &[String], trace: &[(String, Vec<String>)], mon: 
     let mut delivered: Vec<Delivered> = Vec::new();
     let mut session_start_op = 0usize;
     // ---- C05 state
+    let mut before_malformed: Option<(usize, Vec<u8>)> = None;
     let mut last_processed: Option<(usize, Vec<u8>)> = None; // (op index, bytes) of the last non-confirm unicast fragment from an accepted master
     let mut sent_this_session: HashSet<Vec<u8>> = HashSet::new();
     let mut in_sol_wait = false;
@@ -246,6 +247,7 @@ pub fn check(hdr: &str, lines: &[String], trace: &[(String, Vec<String>)], mon: 
                 session_start_op = k + 1;
                 delivered.clear();
                 last_processed = None;
+                before_malformed = None;
                 sent_this_session.clear();
                 in_sol_wait = false;
                 last_read_frag = None;
@@ -527,6 +529,10 @@ pub fn check(hdr: &str, lines: &[String], trace: &[(String, Vec<String>)], mon: 
         let repeat_op = match (&frag, &last_processed) {
             (Some((_, _, f)), Some((_, p))) => f == p,
             _ => false,
+        } || match (&frag, &before_malformed) {
+            // see `before_malformed`: a repeat iff the implementation treated it as one (nothing executed)
+            (Some((_, _, f)), Some((_, p))) => f == p && !outs.iter().any(|o| exec_cb(o)),
+            _ => false,
         };
         if has_cb(outs, "cb broadcast") {
             let mode = match frag.as_ref().map(|f| f.1) {
@@ -557,7 +563,11 @@ pub fn check(hdr: &str, lines: &[String], trace: &[(String, Vec<String>)], mon: 
             if b.len() < 4 {
                 continue;
             }
-            let resend = sent_this_session.contains(b) || (repeat_op && func != Some(1));
+            // an echo of a READ repeated during the confirm wait re-sends a STORED header (its IIN octets are
+            // those of the stored fragment; for a later fragment of the series that is the D5 splice, which
+            // `fits_and_parses` / `resend_is_earlier_fragment` report): the IIN ledger does not judge it
+            let read_echo = b[1] == 0x81 && in_sol_wait && frag.as_ref().map(|f| Some(&f.2) == last_read_frag.as_ref()).unwrap_or(false) && !has_cb(outs, "cb sol_new_request");
+            let resend = sent_this_session.contains(b) || (repeat_op && func != Some(1)) || read_echo;
             if resend && b[2] & 0x01 != 0 {
                 if let Some((m, _)) = bc_pending {
                     if m != 1 {
@@ -746,6 +756,17 @@ pub fn check(hdr: &str, lines: &[String], trace: &[(String, Vec<String>)], mon: 
                     };
                 delivered.push(Delivered { frag: f.clone(), src: *src, time: now, op: k, select_ok, processed: accepted_master && to_us_flag && func != Some(0) && !herr });
                 if accepted_master && to_us_flag && func != Some(0) && !herr {
+                    // a request rejected for malformed objects becomes the "last valid request" when it is
+                    // processed from idle but not when it is answered inside an unsolicited confirm wait:
+                    // whether a later repeat of the request BEFORE it is still a repeat depends on that, so
+                    // the monitors let the implementation's behaviour decide (`before_malformed`)
+                    if a.iter().any(|x| x.contains("malformed")) {
+                        if before_malformed.is_none() {
+                            before_malformed = last_processed.clone();
+                        }
+                    } else {
+                        before_malformed = None;
+                    }
                     last_processed = Some((k, f.clone()));
                     if func == Some(1) {
                         last_read_frag = Some(f.clone());
